@@ -45,6 +45,34 @@ func runC16(c *Ctx) {
 	c.c16SideFile()
 	c.c16SideFileRefreshed()
 	c.c16DestinationEmptied()
+	c.c16FailuresTravel()
+}
+
+// c16FailuresTravel (Y14): "a Fetch returns a complete package or an error". Everything Fetch and Store do to the local
+// copy goes through the filesystem package (copy, hash, unzip, clean): a step which finds its callee failed — a cancelled
+// context between two entries of the archive, a file that cannot be written — and returns a nil error hands the caller a
+// partial tree as a success. Decided with the same rule as C19/E1 and C09/A14 over every function the two caches can reach.
+func (c *Ctx) c16FailuresTravel() {
+	c.rule("Y14", "in every function Fetch/Store can reach (sharedcache, filesystem, hashing, safeio), a return that lies wholly on the failing side of a callee's error does not yield a nil error", 150)
+	var roots []*ssa.Function
+	for _, f := range c.srcFuncs(scPkg) {
+		if f.Parent() == nil && (f.Name() == "Fetch" || f.Name() == "Store") {
+			roots = append(roots, f)
+		}
+	}
+	within := func(g *ssa.Function) bool {
+		return inPkg(scPkg)(g) || inPkg(fsPkgRel)(g) || inPkg("hashing")(g) || inPkg("safeio")(g)
+	}
+	R := c.reachable(roots, true, within)
+	var fns []*ssa.Function
+	for f := range R {
+		fns = append(fns, f)
+	}
+	sortFuncs(fns)
+	for _, f := range fns {
+		c.errDropRule("Y14", f)
+	}
+	c.Extra["functions_reached_by_fetch_and_store"] = len(fns)
 }
 
 // c16SideFile (Y8): "a Store that reports success makes its version the one that Fetches return … even if
